@@ -251,12 +251,14 @@ def ref_gm(case, A, y, x0, alpha, niter):
         xo = x
         p = z if case["acc"] else x
         x = np_prox(case, alpha, p - alpha * (AH @ (A @ p - y)))
+        resid = float(np.linalg.norm(x - xo)) / alpha
         if case["acc"]:
+            # stationary only if x also coincides with the point the step was taken from
+            resid = max(resid, float(np.linalg.norm(x - p)) / alpha)
             tn = (1 + np.sqrt(1 + 4 * t * t)) / 2
             z = x + ((t - 1) / tn) * (x - xo)
             t = tn
-        out.append(dict(x=x, z=z if case["acc"] else None, t=t if case["acc"] else 0.0,
-                        resid=float(np.linalg.norm(x - xo)) / alpha))
+        out.append(dict(x=x, z=z if case["acc"] else None, t=t if case["acc"] else 0.0, resid=resid))
     return out
 
 
@@ -528,7 +530,7 @@ def gen_pd(rng):
         gp = c["lam"]
     gd = rng.choice([0.25, 0.5, 1.0]) if mode in ("dual", "both") else 0.0
     c.update(kind="pd", steps=rng.choice([("s", "s"), ("a", "a"), ("a", "a"), ("a", "s"), ("s", "a")]),
-             frac=rng.choice([1.0, 1.0, 0.9, 0.5, 0.25]), theta=1.0, gp=gp, gd=gd,
+             frac=rng.choice([1.0, 1.0, 0.9, 0.5, 0.25]), theta=rng.choice([1.0, 1.0, 1.0, 1.0, 1.0, 0.5, 0.0]), gp=gp, gd=gd,
              u0scale=rng.choice([0.0, 0.0, 1.0]))
     return c
 
@@ -554,6 +556,8 @@ def cls_of(c):
     if c["kind"] == "gm":
         return "gm:%s:%s:%s" % (c["g"], "cplx" if c["cplx"] else "real", "fista" if c["acc"] else "ista")
     acc = "acc-primal" if (c["gp"] > 0 and c["gd"] == 0) else "acc-dual" if (c["gp"] == 0 and c["gd"] > 0) else "const"
+    if acc == "const" and c["theta"] != 1:
+        acc = "const-theta<1"
     return "pdhg:%s:%s:%s%s:%s" % (c["g"], "cplx" if c["cplx"] else "real", c["steps"][0], c["steps"][1], acc)
 
 
@@ -622,7 +626,7 @@ def run(ctx):
     ctx.coverage["rule"] = ("seeded composite problems min 1/2||Ax-y||^2+g(x), A in {gaussian, ill-conditioned 1e3, scaled, sparse}, dims 1-8 "
                             "(complex 1-5), g in {None, NoOp, l1, l2^2, box}; GradientMethod with alpha = frac/L (frac in (0,1]), "
                             "accelerate on/off, 30-40 updates; PDHG in saddle form with scalar/array tau, sigma (tau*sigma*||A||^2 = frac <= 1), "
-                            "theta=1, gamma_primal/gamma_dual in {0,>0}; every iterate compared with the Coq float model (1e-9*scale); "
+                            "theta=1 (and 0.5, 0 for the trajectory/fixed-point checks), gamma_primal/gamma_dual in {0,>0}; every iterate compared with the Coq float model (1e-9*scale); "
                             "a case is non-trivial when the first update moves x and m*n > 1; distinct = distinct parameter tuples")
     ctx.coverage["disagreements_model_vs_impl"] = len(failing)
     ctx.coverage["disagreements_oracle_vs_impl"] = len(oracle_bad)
@@ -685,4 +689,6 @@ VALIDATED = [
     "convergence of the iterates to the minimiser; O(1/k^2) of accelerated PDHG (not proved; trajectories only)",
     "Fejer monotonicity with ARRAY (diagonal) steps: checked by the oracle, proved for scalar steps",
     "model == implementation: by trajectory correspondence on the sampled problems (floating point, 1e-9)",
+    "in-place update of the caller's x / u: dynamic check (object identity + contents) on every run; the alias IR of DESIGN 2.5 is not built",
+    "resid (GradientMethod incl. the accelerated max(||x-x_old||, ||x-z||)/alpha; PDHG primal+dual): modelled and compared, no theorem",
 ]
